@@ -1262,10 +1262,6 @@ class tensor:
         if order.size == 0:
             return self.copy()
 
-        # Check for special case of an order-1 object, has no effect
-        if (order == 1).all():
-            return self.copy()
-
         # Np transpose does error checking on order, acts as permutation
 
         return ttb.tensor(
